@@ -66,7 +66,25 @@ void harness(void)
         vdecoy = v; vdecoy.data = decoy; vdecoy.access = CAT_VAR_ACCESS_READ_WRITE;
         for (i = 0; i < RT_DS; i++) decoy[i] = nondet_uchar();
         if (RT_TYPE == CAT_VAR_BUF_STRING) decoy[ds - 1] = 0;
-#ifdef RT_WRITE_ONLY
+#ifdef RT_UNTERMINATED
+        /* a string variable completely filled with non-NUL bytes (an application may do that): the formatter must stop at
+         * data_size; the storage is an object of exactly data_size bytes, so reading one byte further is caught */
+        {
+                uint8_t *exact = malloc(ds);
+                __CPROVER_assume(exact != NULL);
+                for (i = 0; i < RT_DS; i++) if (i < ds) { exact[i] = nondet_uchar(); __CPROVER_assume(exact[i] != 0 && exact[i] != '\\' && exact[i] != '"' && exact[i] != '\n'); }
+                v.data = exact; v.access = CAT_VAR_ACCESS_READ_WRITE;
+                fsm = nondet_bool() ? CAT_FSM_TYPE_ATCMD : CAT_FSM_TYPE_UNSOLICITED;
+                if (fsm == CAT_FSM_TYPE_ATCMD) { o.var = &v; o.unsolicited_fsm.var = &vdecoy; } else { o.var = &vdecoy; o.unsolicited_fsm.var = &v; }
+                o.position = 0; o.unsolicited_fsm.position = 0;
+                int r = do_format();
+                const char *t = (fsm == CAT_FSM_TYPE_ATCMD) ? (const char *)buf : (const char *)ubuf;
+                size_t p = (fsm == CAT_FSM_TYPE_ATCMD) ? o.position : o.unsolicited_fsm.position;
+                _Bool ok = (r == 0) && p == ds + 2 && t[0] == '"' && t[ds + 1] == '"' && t[ds + 2] == 0;
+                for (i = 0; i < RT_DS; i++) if (i < ds && (uint8_t)t[1 + i] != exact[i]) ok = 0;
+                __CPROVER_assert(ok, "[C03,C07:string-full] a string that fills its data_size is printed as exactly data_size characters");
+        }
+#elif defined(RT_WRITE_ONLY)
         fsm = nondet_bool() ? CAT_FSM_TYPE_ATCMD : CAT_FSM_TYPE_UNSOLICITED;
         if (fsm == CAT_FSM_TYPE_ATCMD) { o.var = &v; o.unsolicited_fsm.var = &vdecoy; } else { o.var = &vdecoy; o.unsolicited_fsm.var = &v; }
         for (i = 0; i < RT_CAP; i++) ubuf[i] = nondet_uchar();
